@@ -20,7 +20,8 @@ RetxOk(e) ==
             k \in DOMAIN sent => (SubSeq(e.pkt.pl, 3, Len(e.pkt.pl)) = sent[k].pl /\ e.pkt.ts = sent[k].ts /\ e.pkt.m = sent[k].m)
   ELSE TRUE
 Accept(e) == IF e.a \in {"reset", "pre"} THEN TRUE
-             ELSE IF e.a = "wire" THEN RetxOk(e)
+             \* a pacer update or rate-change callback after Close has returned comes from a goroutine Close did not wait for
+             ELSE IF e.a = "wire" THEN RetxOk(e) /\ (e.t \in {"pacer", "callback"} => ~e.closed)
              ELSE IF e.a = "end" THEN ~e.aborted /\ e.leaked = 0
              \* no lost update: the statistics counters equal the number of completed writes / reads of that SSRC
              ELSE IF e.a = "stats" THEN e.skipped \/ (e.n = e.nums[1] /\ e.len = e.nums[2])
